@@ -839,8 +839,13 @@ class IkeSa(object):
                                proposal=chosen_child_proposal, tsi=chosen_tsr, tsr=chosen_tsi, mode=requested_mode,
                                lifetime=ipsec_conf.lifetime, original_proposal=ipsec_conf.proposal)
 
+            try:
+                xfrm.Xfrm.create_child_sa(self, child_sa, child_sa_keyring, is_initiator=False)
+            except xfrm.NetlinkError:
+                # the kernel refused one of the two SAs: do not leave the other one installed nor track the CHILD_SA
+                xfrm.Xfrm.delete_child_sa(self, child_sa)
+                raise
             self.child_sas.append(child_sa)
-            xfrm.Xfrm.create_child_sa(self, child_sa, child_sa_keyring, is_initiator=False)
             self.log_info('Created CHILD_SA {} with lifetime = {}'.format(child_sa, child_sa.lifetime))
 
             # generate the response Payload SA
